@@ -719,11 +719,11 @@ theorem constants_match_source :
     (Offsets.maxId = Generated.maxId) ∧
     (TypedLoad.maxNest = Generated.maxNestedGets) := by
   refine ⟨?_, ?_, ?_, ?_, ?_, ?_⟩
-  · decide +kernel
-  · decide +kernel
-  · decide +kernel
-  · decide +kernel
-  · decide +kernel
-  · decide +kernel
+  · first | decide +kernel | fail "constants_match_source (C01): the model's PdfLex.isWhitespace does not match the source (Generated.lexWhitespace, re-extracted from pdf/src)"
+  · first | decide +kernel | fail "constants_match_source (C01): the model's PdfLex.isDelimiter does not match the source (Generated.lexDelimiters, re-extracted from pdf/src)"
+  · first | decide +kernel | fail "constants_match_source (C01): the model's PdfLex.isRegular does not match the source (Generated.lexDelimiters, Generated.lexWhitespace, re-extracted from pdf/src)"
+  · first | decide +kernel | fail "constants_match_source (C01): the model's PdfLex.maxDepth does not match the source (Generated.parserMaxDepth, re-extracted from pdf/src)"
+  · first | decide +kernel | fail "constants_match_source (C01): the model's Offsets.maxId does not match the source (Generated.maxId, re-extracted from pdf/src)"
+  · first | decide +kernel | fail "constants_match_source (C01): the model's TypedLoad.maxNest does not match the source (Generated.maxNestedGets, re-extracted from pdf/src)"
 
 end C01
